@@ -8,7 +8,7 @@ use crate::subject::build::{Variant, Wrap};
 
 fn setup(ctx: &mut Ctx, what: &str) {
     ctx.rule = format!(
-        "{}; a case is one builder configuration, addressed by its index in a product / k-deviation space; non-trivial = the builder accepted it and produced bytes, distinct by fingerprint of those bytes",
+        "{}; a case is one builder configuration, addressed by its index in a product / k-deviation space, built twice: once plainly and once with the intermediate builder queried (calculate_size + a scratch write_into) after every single builder call (and with the other of the owned/borrowed API flavours); non-trivial = the builder accepted it and produced bytes, distinct by fingerprint of those bytes",
         what
     );
     ctx.assume("field values outside the walk / edge alphabets of DESIGN.md section 1.2 are not explored");
@@ -21,7 +21,11 @@ pub fn c02(ctx: &mut Ctx) {
     ctx.bound("blocks", "0..=31");
     ctx.bound("padding", "all 64 legal values");
     let spaces = gens::sr_rr_spaces(ctx.tier, ctx.seed);
-    run_cfg_spaces(ctx, spaces, |p, _, l| roundtrip_case(l, "roundtrip", p, Variant::PLAIN));
+    run_cfg_spaces(ctx, spaces, |p, _, l| {
+        roundtrip_case(l, "roundtrip", p, Variant::PLAIN);
+        // the same configuration built with a size query and a scratch write after every builder call
+        roundtrip_case(l, "roundtrip-probed", p, Variant::PROBED);
+    });
     ctx.require_hit("round-trip-equal");
 }
 
@@ -32,8 +36,9 @@ pub fn c03(ctx: &mut Ctx) {
     let spaces = gens::sdes_spaces(ctx.tier, ctx.seed);
     run_cfg_spaces(ctx, spaces, |p, idx, l| {
         // alternate the borrowed and the owned item APIs so both writers' inputs are covered
-        let var = Variant { owned: idx % 5 == 4, wrap: Wrap::None };
-        roundtrip_case(l, "roundtrip", p, var)
+        let var = Variant::new(idx % 5 == 4, Wrap::None);
+        roundtrip_case(l, "roundtrip", p, var);
+        roundtrip_case(l, "roundtrip-probed", p, Variant { probe: true, owned: idx % 5 != 4, wrap: Wrap::None })
     });
     ctx.require_hit("round-trip-equal");
 }
@@ -45,8 +50,9 @@ pub fn c04(ctx: &mut Ctx) {
     let mut spaces = gens::bye_spaces(ctx.tier, ctx.seed);
     spaces.extend(gens::app_spaces(ctx.tier, ctx.seed));
     run_cfg_spaces(ctx, spaces, |p, idx, l| {
-        let var = Variant { owned: idx % 7 == 3, wrap: Wrap::None };
-        roundtrip_case(l, "roundtrip", p, var)
+        let var = Variant::new(idx % 7 == 3, Wrap::None);
+        roundtrip_case(l, "roundtrip", p, var);
+        roundtrip_case(l, "roundtrip-probed", p, Variant { probe: true, owned: idx % 7 != 3, wrap: Wrap::None })
     });
     ctx.require_hit("round-trip-equal");
 }
@@ -62,8 +68,9 @@ pub fn c05(ctx: &mut Ctx) {
         Pkt::Fb { kind: Kind::Payload, sender: 1, media: 2, fci, pad: if idx < 2 { 0 } else { 4 } }
     }));
     run_cfg_spaces(ctx, spaces, |p, idx, l| {
-        let var = Variant { owned: idx % 2 == 1, wrap: Wrap::None };
-        roundtrip_case(l, "roundtrip", p, var)
+        let var = Variant::new(idx % 2 == 1, Wrap::None);
+        roundtrip_case(l, "roundtrip", p, var);
+        roundtrip_case(l, "roundtrip-probed", p, Variant { probe: true, owned: idx % 2 == 0, wrap: Wrap::None })
     });
     ctx.require_hit("round-trip-equal");
     let _ = Tier::Quick;
